@@ -63,12 +63,17 @@ def check_case(case) -> Outcome:
     na, entry, output, efr = case["na_action"], case["entry"], case["output"], case["efr"]
     n = fr["n"]
     df = F.build(fr)
+    if case.get("index_kind") == "tz":
+        # a named, timezone-aware DatetimeIndex (its .values are lossy: naive UTC)
+        import pandas as pd
+
+        df.index = pd.date_range("2024-03-30 22:00", periods=fr["n"], freq="h", tz="Europe/Berlin", name="when")
     s = F.formula_string(fc)
     caller = None if case["drop"] is None else {p % n for p in case["drop"]}
     two = entry in ("twosided", "specs-overrides")
     ycol = "z"
     nul = null_rows(fc, fr, extra_cols=[ycol] if two else [])
-    feat = dict(na=na, entry=entry, output=output, index="default" if fr.get("index") is None else case["index_kind"])
+    feat = dict(na=na, entry=entry, output=output, index=case["index_kind"] if (fr.get("index") is not None or case.get("index_kind") == "tz") else "default")
     out.label("na:" + na, "entry:" + entry, "index:" + feat["index"], "out:" + output)
     if nul:
         out.label("has-nulls")
@@ -135,8 +140,8 @@ def check_case(case) -> Outcome:
             continue
         if output == "pandas":
             exp_index = list(df.index[kept])
-            if list(mm.index) != exp_index:
-                out.fail("index-preserved", f"{s!r} entry={entry} part={pname}: index {list(mm.index)} expected {exp_index}", **feat, part=pname)
+            if list(mm.index) != exp_index or mm.index.dtype != df.index.dtype or mm.index.name != df.index.name:
+                out.fail("index-preserved", f"{s!r} entry={entry} part={pname}: index {list(mm.index)} ({mm.index.dtype}, name {mm.index.name!r}) expected {exp_index} ({df.index.dtype}, name {df.index.name!r})", **feat, part=pname)
         en, eM = predict(mm.model_spec, pfc, frk, efr)
         names = list(mm.model_spec.column_names)
         if names != en:
@@ -152,8 +157,8 @@ INDEX_KINDS = ("default", "default", "shuffled", "strings", "nonunique", "float"
 def gen(max_rows=10):
     @st.composite
     def strat(draw):
-        kind = draw(st.sampled_from(INDEX_KINDS))
-        fr = draw(F.frame(min_rows=1, max_rows=max_rows, nulls=True, index_kinds=(kind,)))
+        kind = draw(st.sampled_from(INDEX_KINDS + ("tz",)))
+        fr = draw(F.frame(min_rows=1, max_rows=max_rows, nulls=True, index_kinds=(("default" if kind == "tz" else kind),)))
         if draw(st.integers(0, 2)) == 0:
             # infinite values are not missing values (a row holding +inf and -inf, or (-inf, (-inf)**2), sums to NaN)
             pos = draw(st.integers(0, fr["n"] - 1))
